@@ -13,6 +13,7 @@ import Stef.Driver.Cmp
 import Stef.Driver.Receiver
 import Stef.Driver.Pipeline
 import Stef.Driver.Alloc
+import Stef.Driver.Schema
 
 open Stef.Driver
 
@@ -27,7 +28,9 @@ def mkHandlers : IO (List (List String × Handler)) := do
   let recv ← mkHandler ({} : Receiver.St) Receiver.step
   let pipe ← mkHandler ({} : Pipeline.St) Pipeline.step
   let alloc ← mkHandler ({} : Stef.Alloc.Checker) AllocD.step
+  let schema ← mkHandler ({} : Schema.St) Schema.step
   pure [
+    (["idl", "ws"], schema),
     (["al"], alloc),
     (["rv", "ls"], recv),
     (["pl"], pipe),
